@@ -1136,3 +1136,143 @@ Definition cfg_ok (c : config) : bool :=
 Definition burl_eqb (a b : burl) : bool := str_eqb (bu_prefix a) (bu_prefix b) && str_eqb (bu_path a) (bu_path b).
 Definition op_current (c : config) (o : opsnap) : bool :=
   burl_eqb (os_base o) (cfg_base_url c) && transport_eqb (os_app o) (cf_app c).
+
+(* ------------------------------------------------------------------------------------------------ *)
+(* 14. exchanges: RESPONSE-side state that a transport may carry from one exchange to the next
+   (transport/requests.py:100-121, transport/wsgi.py:58-125, transport/asgi.py:15-22, python/wsgi.py, python/asgi.py,
+   openapi/loaders.py:21-48).  An exchange = one request that reaches the application and the answer of the application
+   (Set-Cookie, a redirect, Connection: close).  The only client objects that live longer than one exchange are the ones
+   the USER hands in (case.call(session=..)): without one, RequestsTransport.send makes a requests.Session and closes
+   it, WSGITransport.send asks wsgi.get_client(app) for a NEW werkzeug Client, ASGITransport.send opens a NEW test
+   client (and drops the session argument), the loaders make their own client.  client_rule says whether get_client
+   hands out one client per application instead: fresh_clients is the code, shared_wsgi_client a SENTINEL.          *)
+(* ------------------------------------------------------------------------------------------------ *)
+Definition cookies := list (str * str).
+Definition s_cookie : str := [67;111;111;107;105;101].
+Definition s_host : str := [72;111;115;116].
+(* Cookie header text: name=value joined with semicolon and space (http.cookiejar / werkzeug, values need no quoting) *)
+Definition render_cookies (cs : cookies) : str := join [59;32] (map (fun kv => fst kv ++ [61] ++ snd kv) cs).
+Definition ci_remove (k : str) (h : headers) : headers := filter (fun kv => negb (ci_eqb k (fst kv))) h.
+Fixpoint d_remove_keys {A} (ks : list str) (d : list (str * A)) : list (str * A) :=
+  match ks with [] => d | k :: r => d_remove_keys r (d_pop k d) end.
+
+(* a case without a body: headers and cookies of the case, headers= and cookies= of case.call(..) *)
+Record xcase := { xc_headers : option headers; xc_cookies : option cookies;
+                  xc_call_headers : option (list (str * str)); xc_call_cookies : option cookies; xc_id : str }.
+(* what the application answers *)
+Record xresp := { xr_set : cookies; xr_redirect : bool; xr_close : bool }.
+Inductive xevent :=
+  | XLoad (t : transport) (r : xresp)                                   (* from_url / from_wsgi / from_asgi *)
+  | XSend (t : transport) (sess : option N) (c : xcase) (r : xresp).    (* case.call(session=.., headers=.., cookies=..) *)
+(* the surroundings: default headers of a requests session (requests.utils.default_headers, also the ASGI test client),
+   the User-Agent of schemathesis, the host the client talks to (load = the loaders own client) *)
+Record xenv := { xe_std : headers; xe_ua : str; xe_host : transport -> bool -> str }.
+
+Definition or_nil {A} (o : option (list A)) : list A := match o with Some l => l | None => [] end.
+(* {**(case.cookies or {}), **(cookies or {})} (wsgi.py:79) = merge_at(data, cookies, cookies) (requests.py:76) *)
+Definition xown (c : xcase) : cookies := d_update (or_nil (xc_cookies c)) (or_nil (xc_call_cookies c)).
+Definition xprep (e : xenv) (c : xcase) : headers := prepare_headers (xc_headers c) (xc_call_headers c) (xe_ua e) (xc_id c).
+
+(* the cookies a client object sends: a werkzeug Client puts the cookies of the case INTO its jar (cookie_handler:
+   set_cookie replaces an entry of the same name in place); a requests session sends its jar (cookies received from
+   this host) followed by the cookies of the request (another domain: no replacement) *)
+Definition wire_cookies (t : transport) (own jar : cookies) : cookies :=
+  match t with TWsgi => d_update jar own | _ => jar ++ own end.
+(* the header set the application receives (names outside Host, Content-Type, Content-Length).
+   werkzeug: HTTP_HOST, then every given header; HTTP_COOKIE is rebuilt from the jar of the client, a Cookie header
+   among the given ones is dropped (test.py _add_cookies_to_wsgi).  requests: session defaults overridden by the request
+   headers (merge_setting); the cookie jar adds a Cookie header unless there is one (cookiejar.add_cookie_header);
+   http.client adds Host. *)
+Definition wire (e : xenv) (t : transport) (host : str) (prep : headers) (own jar : cookies) : headers :=
+  let cs := wire_cookies t own jar in
+  match t with
+  | TWsgi =>
+      let h := ci_remove s_cookie (ci_update [(s_host, host)] prep) in
+      if is_nil cs then h else h ++ [(s_cookie, render_cookies cs)]
+  | _ =>
+      let h := ci_update (xe_std e) prep in
+      let h' := match ci_get s_cookie h with
+                | Some _ => h
+                | None => if is_nil cs then h else h ++ [(s_cookie, render_cookies cs)]
+                end in
+      ci_setdefault s_host host h'
+  end.
+(* the jar of a client object after the exchange: Set-Cookie (Path=/) entries are stored; cookie_handler deletes the
+   cookies of the case afterwards, whatever the answer stored under those names *)
+Definition jar_after (t : transport) (jar own set : cookies) : cookies :=
+  match t with
+  | TWsgi => d_remove_keys (map fst own) (d_update (d_update jar own) set)
+  | _ => d_update jar set
+  end.
+
+(* client objects that outlive an exchange: (transport, Some i) = the i-th session object of the user,
+   (transport, None) = the one client per application of a client_rule that shares *)
+Definition slot := (transport * option N)%type.
+Definition slot_eqb (a b : slot) : bool :=
+  transport_eqb (fst a) (fst b) &&
+  match snd a, snd b with None, None => true | Some x, Some y => x =? y | _, _ => false end.
+Definition jars := list (slot * cookies).
+Fixpoint jar_get (k : slot) (js : jars) : cookies :=
+  match js with [] => [] | (k', j) :: r => if slot_eqb k k' then j else jar_get k r end.
+Fixpoint jar_put (k : slot) (j : cookies) (js : jars) : jars :=
+  match js with
+  | [] => [(k, j)]
+  | (k', j') :: r => if slot_eqb k k' then (k, j) :: r else (k', j') :: jar_put k j r
+  end.
+Definition client_rule := transport -> bool.
+Definition fresh_clients : client_rule := fun _ => false.                                            (* the code *)
+Definition shared_wsgi_client : client_rule := fun t => match t with TWsgi => true | _ => false end. (* SENTINEL *)
+
+Definition xslot (rule : client_rule) (ev : xevent) : option slot :=
+  match ev with
+  | XLoad t _ => if rule t then Some (t, None) else None
+  | XSend TAsgi _ _ _ => if rule TAsgi then Some (TAsgi, None) else None   (* asgi.py:21: session=client, the argument is dropped *)
+  | XSend t (Some i) _ _ => Some (t, Some i)
+  | XSend t None _ _ => if rule t then Some (t, None) else None
+  end.
+Definition xreq (e : xenv) (ev : xevent) (jar : cookies) : headers :=
+  match ev with
+  | XLoad t _ => wire e t (xe_host e t true) [(h_user_agent, xe_ua e)] [] jar
+  | XSend t _ c _ => wire e t (xe_host e t false) (xprep e c) (xown c) jar
+  end.
+Definition xjar_after (ev : xevent) (jar : cookies) : cookies :=
+  match ev with
+  | XLoad t r => jar_after t jar [] (xr_set r)
+  | XSend t _ c r => jar_after t jar (xown c) (xr_set r)
+  end.
+Definition xresp_of (ev : xevent) : xresp := match ev with XLoad _ r => r | XSend _ _ _ r => r end.
+(* one exchange: the headers the application receives, and the client objects afterwards *)
+Definition xstep (rule : client_rule) (e : xenv) (js : jars) (ev : xevent) : jars * headers :=
+  match xslot rule ev with
+  | None => (js, xreq e ev [])
+  | Some k => (jar_put k (xjar_after ev (jar_get k js)) js, xreq e ev (jar_get k js))
+  end.
+Fixpoint xrun (rule : client_rule) (e : xenv) (js : jars) (h : list xevent) : list headers :=
+  match h with [] => [] | ev :: r => snd (xstep rule e js ev) :: xrun rule e (fst (xstep rule e js ev)) r end.
+Fixpoint xexec (rule : client_rule) (e : xenv) (js : jars) (h : list xevent) : jars :=
+  match h with [] => js | ev :: r => xexec rule e (fst (xstep rule e js ev)) r end.
+(* the request of an exchange that happens first, on clients that have seen nothing *)
+Definition xalone (e : xenv) (ev : xevent) : headers := xreq e ev [].
+(* events that go through the same long-lived client object *)
+Definition same_slot (rule : client_rule) (ev ev' : xevent) : bool :=
+  match xslot rule ev, xslot rule ev' with Some a, Some b => slot_eqb a b | _, _ => false end.
+Definition no_session (ev : xevent) : bool := match ev with XSend _ (Some _) _ _ => false | _ => true end.
+
+(* regions *)
+(* a Python dict has every key once *)
+Definition dict_ok {A} (d : option (list (str * A))) : bool := nodup_strs (map fst (or_nil d)).
+(* the case (with the headers of the call) has no Cookie header of its own *)
+Definition no_cookie_header (e : xenv) (c : xcase) : bool :=
+  match ci_get s_cookie (xprep e c) with None => true | Some _ => false end.
+Definition std_has_no_cookie (e : xenv) : bool := match ci_get s_cookie (xe_std e) with None => true | Some _ => false end.
+
+(* the transport of an exchange, the Cookie header made of a cookie list, the cookies an exchange brings itself, the
+   cookies a client object sends in an exchange *)
+Definition xtransport (ev : xevent) : transport := match ev with XLoad t _ => t | XSend t _ _ _ => t end.
+Definition cookie_header_of (cs : cookies) : option str := if is_nil cs then None else Some (render_cookies cs).
+Definition xown_of (ev : xevent) : cookies := match ev with XLoad _ _ => [] | XSend _ _ c _ => xown c end.
+Definition xcookies_sent (rule : client_rule) (ev : xevent) (js : jars) : cookies :=
+  match ev with
+  | XLoad t _ => wire_cookies t [] (match xslot rule ev with Some k => jar_get k js | None => [] end)
+  | XSend t _ c _ => wire_cookies t (xown c) (match xslot rule ev with Some k => jar_get k js | None => [] end)
+  end.
